@@ -94,6 +94,7 @@ func c09Run(c *vcore.Ctx) *vcore.Violation {
 	}
 	script = append(script, genSideShow(c, !inPidNs)...)
 	exited := true
+	outsideKill := false
 	code, sig := 0, 0
 	how := src.Int(10, "ending")
 	switch {
@@ -113,10 +114,29 @@ func c09Run(c *vcore.Ctx) *vcore.Violation {
 			mode = "threadraise"
 		}
 		script = append(script, mode, fmt.Sprint(sig), "sleep", "2000", "exit", "99")
+	case kind != "container_syncafter" && src.Bool(1, 2, "killed_from_outside"): // (after-exec sync hands out the init's pid, not the program's)
+		// SIGKILL from somebody else (the OOM killer, an operator, the hard CPU limit): the table says
+		// Time Limit Exceeded, in every runner; also the init of a pid namespace cannot ignore it
+		exited, sig = false, int(syscall.SIGKILL)
+		outsideKill = true
+		script = append(script, "sleep", "20000", "exit", "98")
 	default:
 		// a real fault: works for every runner, also for the init of a pid namespace
 		exited, sig = false, int(syscall.SIGSEGV)
 		script = append(script, "segv")
+	}
+	pidCh := make(chan int, 4)
+	var sync func(int) error
+	if outsideKill {
+		sync = func(pid int) error { pidCh <- pid; return nil }
+		go func() {
+			select {
+			case pid := <-pidCh:
+				time.Sleep(40 * time.Millisecond)
+				syscall.Kill(pid, syscall.SIGKILL)
+			case <-time.After(50 * time.Second):
+			}
+		}()
 	}
 	c.Logf("runner=%s script=%v", kind, script)
 	c.Event("runner:" + kind)
@@ -126,9 +146,9 @@ func c09Run(c *vcore.Ctx) *vcore.Violation {
 		switch kind {
 		case "ptrace":
 			h := &recHandler{}
-			res, _ = kRunPtrace(context.Background(), &kOpts{script: script, filter: kFilterAllowAllBut(nil, nil), handler: h})
+			res, _ = kRunPtrace(context.Background(), &kOpts{script: script, filter: kFilterAllowAllBut(nil, nil), handler: h, syncFunc: sync})
 		case "unshare":
-			res, _ = kRunUnshare(context.Background(), &kOpts{script: script})
+			res, _ = kRunUnshare(context.Background(), &kOpts{script: script, syncFunc: sync})
 		default:
 			ct := sharedContainer()
 			if ct == nil {
@@ -137,6 +157,9 @@ func c09Run(c *vcore.Ctx) *vcore.Violation {
 			e := &kExec{script: script, syncAfter: kind == "container_syncafter"}
 			if src.Bool(1, 2, "withsync") {
 				e.syncFunc = func(int) error { return nil }
+			}
+			if sync != nil {
+				e.syncFunc = sync
 			}
 			res, _ = ct.exec(context.Background(), e)
 		}
@@ -234,7 +257,10 @@ func c15Run(c *vcore.Ctx) *vcore.Violation {
 	var body []string
 	for i := 0; i < ncalls; i++ {
 		if src.Bool(1, 8, "weirdnr") {
-			nr := src.Pick("nr", "9999", "-1", "0x40000001", "0x4000003b", "1000000", "335", "18446744073709551615")
+			// (the last five: a traced call's number in the low half of the register, garbage in the high half -
+			// the kernel and the filter look at 32 bits, the tracer reads all 64)
+			nr := src.Pick("nr", "9999", "-1", "0x40000001", "0x4000003b", "1000000", "335", "18446744073709551615",
+				"0x100000002", "0xffffffff00000002", "0x8000000000000101", "0x7fffffff00000015", "0xdeadbeef00000106")
 			body = append(body, "sys", nr, "0", "0", "0", "0", "0", "0")
 			sites = append(sites, "nr:"+nr)
 			continue
@@ -256,6 +282,10 @@ func c15Run(c *vcore.Ctx) *vcore.Violation {
 			} else {
 				args[2] = fl
 			}
+		}
+		if ps.name == "openat2" {
+			// the size of struct open_how is the program's to choose, too (the kernel refuses absurd ones itself)
+			args[3] = src.Pick("howsize", "24", "24", "0", "8", "4097", "0x4000000000000000", "18446744073709551615")
 		}
 		body = append(body, append([]string{"sys", fmt.Sprint(ps.nr)}, args...)...)
 		sites = append(sites, ps.name+":"+strings.SplitN(enc, ":", 2)[0])
